@@ -680,6 +680,24 @@ func c10exec(c *h.Ctx, cs *h.Case) {
 						// nobody listens on R's port any more: on TCP the port may by now belong
 						// to a router of another case running in parallel - do not dial it
 						t.bgErr <- nil
+					} else if t.fin == "norun" {
+						// in memory: the peer's attempt must fail by itself; wait for that, so that
+						// the attempt cannot pick up a connection made later in the schedule
+						done := make(chan error, 1)
+						go func() {
+							_, err := p.r.Send(ctl.r.ServerIdentity, &C10Msg{N: 1000 + k})
+							done <- err
+						}()
+						select {
+						case err := <-done:
+							if err == nil {
+								cs.Fail("connected-to-stopped-router", "a peer's Send to the stopped router reported success (in-memory transport)")
+							}
+							t.bgErr <- err
+						case <-time.After(5 * time.Second):
+							cs.Fail("hang:peer-send", "a peer's Send towards the stopped router never returned")
+							t.bgErr <- nil
+						}
 					} else {
 						go func() {
 							_, err := p.r.Send(ctl.r.ServerIdentity, &C10Msg{N: 1000 + k})
